@@ -11,15 +11,15 @@
 EXTENDS Integers, Sequences, FiniteSets, TLC, Json
 
 TLog == ndJsonDeserialize("trace.ndjson")
-VARIABLES l, startCalls, stopCalls, cancels, okStart, okStop, open, bad, failedStop
-vars == <<l, startCalls, stopCalls, cancels, okStart, okStop, open, bad, failedStop>>
+VARIABLES l, startCalls, stopCalls, cancels, okStart, okStop, open, bad, failedStop, voidStops
+vars == <<l, startCalls, stopCalls, cancels, okStart, okStop, open, bad, failedStop, voidStops>>
 
-Fresh == startCalls = 0 /\ stopCalls = 0 /\ cancels = 0 /\ okStart = 0 /\ okStop = 0 /\ open = <<>> /\ failedStop = FALSE
+Fresh == startCalls = 0 /\ stopCalls = 0 /\ cancels = 0 /\ okStart = 0 /\ okStop = 0 /\ open = <<>> /\ failedStop = FALSE /\ voidStops = 0
 Init == l = 1 /\ Fresh /\ bad = ""
 Ev == TLog[l]
 Put(f, k, v) == [x \in DOMAIN f \cup {k} |-> IF x = k THEN v ELSE f[x]]
 
-Reset == Ev.e = "Reset" /\ startCalls' = 0 /\ stopCalls' = 0 /\ cancels' = 0 /\ okStart' = 0 /\ okStop' = 0 /\ open' = <<>> /\ failedStop' = FALSE /\ UNCHANGED bad
+Reset == Ev.e = "Reset" /\ startCalls' = 0 /\ stopCalls' = 0 /\ cancels' = 0 /\ okStart' = 0 /\ okStop' = 0 /\ open' = <<>> /\ failedStop' = FALSE /\ voidStops' = 0 /\ UNCHANGED bad
 
 \* at call time remember what had already happened: decides which results are acceptable
 Call ==
@@ -29,13 +29,15 @@ Call ==
     /\ startCalls' = startCalls + (IF Ev.op = "start" THEN 1 ELSE 0)
     /\ stopCalls' = stopCalls + (IF Ev.op = "stop" THEN 1 ELSE 0)
     /\ cancels' = cancels + (IF Ev.op = "cancel" THEN 1 ELSE 0)
-    /\ UNCHANGED <<okStart, okStop, bad, failedStop>>
+    /\ UNCHANGED <<okStart, okStop, bad, failedStop, voidStops>>
 
 Ret ==
     /\ Ev.e = "Ret"
     /\ LET c == open[Ev.p]
            othersStart == startCalls - 1       \* start calls other than this one made so far
-           othersStop == stopCalls - (IF Ev.op = "stop" THEN 1 ELSE 0)
+           \* stop calls other than this one that may have stopped the system: a Stop that was rejected because the system
+           \* had not been started (voidStops) changed nothing and explains nothing
+           othersStop == stopCalls - (IF Ev.op = "stop" THEN 1 ELSE 0) - voidStops
            verdict ==
              CASE Ev.op = "start" /\ Ev.r = "ok" -> IF okStart >= 1 THEN "StartOnce" ELSE ""
                [] Ev.op = "start" /\ Ev.r = "already-started" -> IF othersStart = 0 THEN "Result.start" ELSE ""
@@ -60,13 +62,22 @@ Ret ==
     /\ okStop' = okStop + (IF Ev.op = "stop" /\ Ev.r = "ok" THEN 1 ELSE 0)
     /\ open' = [x \in DOMAIN open \ {Ev.p} |-> open[x]]
     /\ failedStop' = (failedStop \/ (Ev.op = "stop" /\ Ev.r = "stop-failed"))
+    /\ voidStops' = voidStops + (IF Ev.op = "stop" /\ Ev.r = "not-started" THEN 1 ELSE 0)
     /\ UNCHANGED <<startCalls, stopCalls, cancels>>
 
-Hang == Ev.e = "Hang" /\ bad' = (IF bad = "" THEN "NeverHangs" ELSE bad) /\ UNCHANGED <<startCalls, stopCalls, cancels, okStart, okStop, open, failedStop>>
+Hang == Ev.e = "Hang" /\ bad' = (IF bad = "" THEN "NeverHangs" ELSE bad) /\ UNCHANGED <<startCalls, stopCalls, cancels, okStart, okStop, open, failedStop, voidStops>>
 \* Stop returns within its time-out: the wait for the tree (alive = milliseconds spent, gor = time-out given, <= 0 means at once)
 StopWaited == /\ Ev.e = "StopWaited"
               /\ bad' = IF bad = "" /\ Ev.alive > (IF Ev.gor > 0 THEN Ev.gor ELSE 0) + 400 THEN "StopWithinTimeout" ELSE bad
-              /\ UNCHANGED <<startCalls, stopCalls, cancels, okStart, okStop, open, failedStop>>
+              /\ UNCHANGED <<startCalls, stopCalls, cancels, okStart, okStop, open, failedStop, voidStops>>
+
+\* Up alive gor: a system that was started and that nobody stopped or cancelled was observed at the end of the run:
+\* alive = actors registered, gor = 1 if a job scheduled then was delivered
+Up == /\ Ev.e = "Up"
+      /\ bad' = IF bad # "" THEN bad
+                ELSE IF okStart >= 1 /\ okStop = 0 /\ cancels = 0 /\ (Ev.alive = 0 \/ Ev.gor = 0) THEN "StartedSystemKeepsRunning"
+                ELSE ""
+      /\ UNCHANGED <<startCalls, stopCalls, cancels, okStart, okStop, open, failedStop, voidStops>>
 
 Final ==
     /\ Ev.e = "Final"
@@ -75,9 +86,9 @@ Final ==
               ELSE IF ~failedStop /\ okStart >= 1 /\ (okStop >= 1 \/ cancels >= 1) /\ Ev.alive > 0 THEN "StopTerminatesActors"
               ELSE IF ~failedStop /\ okStart >= 1 /\ (okStop >= 1 \/ cancels >= 1) /\ Ev.gor > 0 THEN "NoGoroutineLeft"
               ELSE ""
-    /\ UNCHANGED <<startCalls, stopCalls, cancels, okStart, okStop, open, failedStop>>
+    /\ UNCHANGED <<startCalls, stopCalls, cancels, okStart, okStop, open, failedStop, voidStops>>
 
-Next == l <= Len(TLog) /\ l' = l + 1 /\ (Reset \/ Call \/ Ret \/ Hang \/ StopWaited \/ Final)
+Next == l <= Len(TLog) /\ l' = l + 1 /\ (Reset \/ Call \/ Ret \/ Hang \/ StopWaited \/ Up \/ Final)
 Spec == Init /\ [][Next]_vars
 Ok == bad = ""
 Accepted == TLCGet("stats").diameter - 1 = Len(TLog)
